@@ -6,6 +6,7 @@ from sa.resolve import walk_function
 from sa.report import Renamed
 from rules.common import allocation_filters
 
+TECHNIQUE = 'static analysis (ast): value-id comparison of the lead-contract index with its specification, immutability / no-cache effect rules for the chain, membership-guard rule in make_trades, event registration and ordering rules on the CFG'
 EXPLANATION = (
     "Decides the structural clauses of C11: (S1) FutureChain._lead_contract_idx is bisect_right(last trading dates, now) + month offset, computed afresh on "
     "every call (no cache), lead_contract indexes self.contracts with it (+ month), `now` defaults to the simulation clock; (S2) the chain's contract list is "
